@@ -23,6 +23,10 @@ CONSTANTS
   DevIdleSweep = TRUE
   DevFwdNoEof = TRUE
   SrcKinds = @@SK@@
+  ErrClasses = @@EC@@
+  PollOn = @@POLL@@
+  RetryOn = {}
+  RetryWriteOn = {}
   DevBufio = FALSE
   AttachKinds = @@AK@@
   HoldOn = @@HOLD@@
